@@ -1,4 +1,4 @@
-# C10 -- gzip compression of an image file is transparent (clause ii only: see DESIGN.md C10)
+# C10 -- gzip compression of an image file is transparent (see DESIGN.md C10)
 import sys, os
 sys.path.insert(0, os.path.dirname(os.path.abspath(__file__)))
 import dfs_common as D
@@ -9,7 +9,6 @@ def jobs(tier):
 META = {
     "trusted_base": D.DFS_TRUSTED + ["zlib.h contract of inflate() (consumes <= avail_in, produces <= avail_out, documented return codes, Z_BUF_ERROR only without progress)", "fread/fwrite/ferror per C11"],
     "assumptions": ["that zlib's inflate inverts gzip is assumed", "termination of the inflate loop is zlib's (no decreases clause)"],
-    "outside": ["clause (i): the extension/hint logic of make_image_file / make_candidate_list (std::string, std::deque) -- not extractable by the stated rules; the known loss of geometry hints for `x.ssd.gz` names is therefore NOT decided here",
-                "DecompressedFile::read (vector resize, lambda)"],
-    "explanation": "under the zlib.h contract of inflate: every byte inflate produced is written exactly once and in order; the loop exits normally only at Z_STREAM_END; any other code, a short fwrite or a read error raises an exception by value (a non-gzip / truncated file is never passed through)",
+    "outside": ["clause (i), container choice: the extension stripping of make_image_file / split_extensions (std::deque<std::string>) -- not extractable by the stated rules; the geometry hints of make_candidate_list ARE under contract (same hints with and without .gz)"],
+    "explanation": "the name hints for X.gz are the hints for X; DecompressedFile::read returns exactly the bytes that exist, like OsFile::read; gzip format only; under the zlib.h contract of inflate: every byte inflate produced is written exactly once and in order; the loop exits normally only at Z_STREAM_END; any other code, a short fwrite or a read error raises an exception by value (a non-gzip / truncated file is never passed through)",
 }
